@@ -73,6 +73,15 @@ func verifKnown(id string, c bool) {}
 func verifReach(label string)      {}
 func verifLocksFree() bool         { return true }
 func verifFlag(name string) bool   { return verifFlags[name] }
+func verifCase(name string) int {
+	for f := range verifFlags {
+		if strings.HasPrefix(f, name+"=") {
+			v, _ := strconv.Atoi(f[len(name)+1:])
+			return v
+		}
+	}
+	return int(verifModel[name])
+}
 func verifObserve(name string, v uint64) {
 	verifObserved = append(verifObserved, fmt.Sprintf("%s#%d=%d", name, len(verifObserved), v))
 }
@@ -167,3 +176,5 @@ func verifLoad(path string) (*verifReplayFile, error) {
 	}
 	return rf, nil
 }
+
+func verifBatch(on bool) {}
